@@ -6,6 +6,8 @@ mod c01;
 mod c02;
 mod c02x;
 mod c03;
+mod c04;
+mod c06;
 mod c07;
 mod c08;
 mod c09;
@@ -73,6 +75,8 @@ fn main() {
         "C01" => run::<c01::C01>(&args),
         "C02" => run::<c02::C02>(&args),
         "C03" => run::<c03::C03>(&args),
+        "C04" => run::<c04::C04>(&args),
+        "C06" => run::<c06::C06>(&args),
         "C07" => run::<c07::C07>(&args),
         "C08" => run::<c08::C08>(&args),
         "C09" => run::<c09::C09>(&args),
